@@ -151,3 +151,12 @@ package hclwrite
 //@   loop "for i := range ret"
 //@     invariant own: fresh(arrayof(tokBuf)) && fresh(arrayof(ret)) && len(ret) == len(tokBuf) && len(tokBuf) == len(nativeTokens)
 //@     invariant done: forall(j, 0, len(tokBuf), loaded(tokBuf[j], nativeTokens, j))
+
+// C20 / C14: "after setting an attribute, re-parsing the output shows that change". A string value
+// is written with the spellings this dialect's reader accepts, and no others: the two-character
+// escapes for LF CR TAB quote backslash, a doubled $ or % in front of {, \xHH (one byte each) for
+// what is not printable, and the character itself otherwise. (\u and \U are not read by this dialect.)
+//@ func escapeQuotedStringLit(s string) (out []byte)
+//@   guard-call two:     "append" !argis(1, "fmted") ==> (len(arg(1)) == 2 && arg(1)[0] == 92 && ((r == 10 && arg(1)[1] == 110) || (r == 13 && arg(1)[1] == 114) || (r == 9 && arg(1)[1] == 116) || (r == 34 && arg(1)[1] == 34) || (r == 92 && arg(1)[1] == 92)))
+//@   guard-call hexonly: "Sprintf" arg(0) == "\\x%02x" && len(arg(1)) == 1 && typeis(arg(1)[0], uint8)
+//@   guard-call itself:  "appendRune" arg(1) == r
